@@ -460,6 +460,29 @@ def sai_replay(inputs, clause):
     if obs['value']['returned_normally']:
         return {'status': 'confirmed', 'observed': obs,
                 'failed': [{'clause': 'returns_only_with_a_sorted_and_indexed_output', 'why': 'every sort attempt failed, the function returned'}]}
+    # second scenario: the sort works, the index step fails - a normal return needs an index next to the output (bai or csi)
+    d = tempfile.mkdtemp(prefix='c20s_', dir=base)
+    real_index = pysam.index
+    try:
+        unsorted, out = os.path.join(d, 'x.unsorted.bam'), os.path.join(d, 'x.bam')
+        shutil.copy(src, unsorted)
+
+        def boom_index(*a, **k):
+            raise RuntimeError('injected index failure')
+        pysam.index = boom_index
+        try:
+            fn(unsorted, out, remove_unsorted=True, local_temp_sort=bool(inputs.get('local_temp_sort', True)))
+            returned2 = True
+        except Exception:      # noqa: BLE001
+            returned2 = False
+        indexed = os.path.exists(out + '.bai') or os.path.exists(out + '.csi')
+    finally:
+        pysam.index = real_index
+        shutil.rmtree(d, ignore_errors=True)
+    obs['value']['index_failure'] = {'returned_normally': returned2, 'index_exists': indexed}
+    if returned2 and not indexed:
+        return {'status': 'confirmed', 'observed': obs,
+                'failed': [{'clause': 'returns_only_with_a_sorted_and_indexed_output', 'why': 'the index step failed, the function returned without an index'}]}
     return {'status': 'not-reproduced', 'observed': obs}
 
 
